@@ -95,6 +95,12 @@ structure State where
   nextInode : Inode
   winners : List Pid
   trace : List (Pid × Sys)
+  /-- ghost: the creators whose write callback returned `Ok`, most recent first -/
+  okWrites : List Pid := []
+  /-- ghost: those of them whose attempt was lost afterwards: killed before the rename, or the rename failed -/
+  lost : List Pid := []
+  /-- ghost: the creator whose callback has returned `Ok` and that has not renamed yet -/
+  okAt : Option Pid := none
 
 def State.init : State :=
   { pc := fun _ => .idle, lockName := none, holder := fun _ => none, dest := none, part := none,
@@ -180,12 +186,14 @@ def stepP (pl : Pid → Content) (s : State) (p : Pid) : Option State :=
     | some c => some { s with pc := upd s.pc p (.writing i j (k + 1)),
                               content := upd s.content j (s.content j ++ [c]),
                               trace := (p, .write) :: s.trace }
-    | none => some { s with pc := upd s.pc p (.wroteOk i), trace := (p, .closePart) :: s.trace }
+    | none => some { s with pc := upd s.pc p (.wroteOk i), trace := (p, .closePart) :: s.trace,
+                            okWrites := p :: s.okWrites, okAt := some p }
   | .wroteOk i =>                                      -- :160 rename(part, dest)
     match s.part with
     | some j => some { s with pc := upd s.pc p (.renamed i), dest := some j, part := none,
-                              winners := p :: s.winners, trace := (p, .rename true) :: s.trace }
-    | none => some { s with pc := upd s.pc p (.failed i .rename), trace := (p, .rename false) :: s.trace }
+                              winners := p :: s.winners, trace := (p, .rename true) :: s.trace, okAt := none }
+    | none => some { s with pc := upd s.pc p (.failed i .rename), trace := (p, .rename false) :: s.trace,
+                            lost := p :: s.lost, okAt := none }
   | .failed i e =>                                     -- :152 / :164 remove_file(part)
     some { s with pc := upd s.pc p (.failDrop i e), part := none, trace := (p, .unlinkPart) :: s.trace }
   | .failDrop i e =>                                   -- :153 / :165 drop(locked_file); the lock file stays
@@ -223,7 +231,8 @@ def failP (s : State) (p : Pid) : Option State :=
   | .writing i _ _ =>                                  -- :150 the callback returns Err (it has dropped the file)
     some { s with pc := upd s.pc p (.failed i .callback), trace := (p, .closePart) :: s.trace }
   | .wroteOk i =>                                      -- :162 rename fails, nothing changed
-    some { s with pc := upd s.pc p (.failed i .rename), trace := (p, .rename false) :: s.trace }
+    some { s with pc := upd s.pc p (.failed i .rename), trace := (p, .rename false) :: s.trace,
+                  lost := p :: s.lost, okAt := none }
   | .failed i e =>                                     -- :152 / :164 `let _ =` ignores a failed remove_file(part)
     some { s with pc := upd s.pc p (.failDrop i e), trace := (p, .unlinkPart) :: s.trace }
   | .exClosed =>                                       -- :124 ignored failure of remove_file(lock)
@@ -234,12 +243,22 @@ def failP (s : State) (p : Pid) : Option State :=
     some { s with pc := upd s.pc p (.doneErr .callback) }
   | _ => none
 
+/-- the callback has returned `Ok`, the rename has not happened yet -/
+def isWroteOk : PC → Bool
+  | .wroteOk _ => true
+  | _ => false
+
+/-- ghost bookkeeping of a kill: a creator killed between `Ok` of its callback and the rename loses its write -/
+def lostAfterCrash (s : State) (p : Pid) : List Pid := if isWroteOk (s.pc p) then p :: s.lost else s.lost
+def okAtAfterCrash (s : State) (p : Pid) : Option Pid := if isWroteOk (s.pc p) then none else s.okAt
+
 /-- creator `p`'s process is killed: the kernel closes its descriptors -/
 def crashP (s : State) (p : Pid) : Option State :=
   if quiet (s.pc p) then none else
   match lockFd (s.pc p) with
-  | some i => some { s with pc := upd s.pc p .dead, holder := release s.holder i p }
-  | none => some { s with pc := upd s.pc p .dead }
+  | some i => some { s with pc := upd s.pc p .dead, holder := release s.holder i p,
+                            lost := lostAfterCrash s p, okAt := okAtAfterCrash s p }
+  | none => some { s with pc := upd s.pc p .dead, lost := lostAfterCrash s p, okAt := okAtAfterCrash s p }
 
 /-- creator `p`'s future is dropped at one of its await points (:96 → :222, :126, :143) -/
 def cancelP (s : State) (p : Pid) : Option State :=
